@@ -14,6 +14,7 @@ import (
 	"os"
 	"reflect"
 	"sync"
+	"sync/atomic"
 	"testing"
 	"time"
 
@@ -49,6 +50,8 @@ type scriptConn struct {
 	deadlines []time.Time
 	// failWrites: the peer is gone for writing (the alert cannot be delivered); the connection must be closed all the same
 	failWrites bool
+	// onDrain runs once, inside the Read call that hands out the last scripted byte
+	onDrain func()
 }
 
 func newScriptConn(in []byte) *scriptConn { return &scriptConn{r: bytes.NewReader(in)} }
@@ -60,7 +63,13 @@ func (b *scriptConn) Read(p []byte) (int, error) {
 	if closed {
 		return 0, net.ErrClosed
 	}
-	return b.r.Read(p)
+	n, err := b.r.Read(p)
+	if b.r.Len() == 0 && b.onDrain != nil {
+		f := b.onDrain
+		b.onDrain = nil
+		f()
+	}
+	return n, err
 }
 func (b *scriptConn) Write(p []byte) (int, error) {
 	b.mu.Lock()
@@ -193,6 +202,8 @@ func interleavedFirst(recA []byte, keysA []ech.Key, recB []byte, keysB []ech.Key
 	return ""
 }
 
+var ctxCycle atomic.Int64
+
 func runNewConnInner(record []byte, keys []ech.Key) (o obsNewConn) {
 	sc := newScriptConn(record)
 	keysBefore := cloneKeys(keys)
@@ -209,7 +220,16 @@ func runNewConnInner(record []byte, keys []ech.Key) (o obsNewConn) {
 	}()
 	var opts []ech.Option
 	opts = append(opts, keyOptions(keys)...)
-	c, err := ech.NewConn(context.Background(), sc, opts...)
+	// NewConn's context governs the wait for the first record only. Every third connection's context ends inside the transport
+	// call that delivers the record's last byte: what NewConn does with the record must not depend on it.
+	ctx := context.Background()
+	if ctxCycle.Add(1)%3 == 0 {
+		var cancel context.CancelFunc
+		ctx, cancel = context.WithCancel(ctx)
+		defer cancel()
+		sc.onDrain = cancel
+	}
+	c, err := ech.NewConn(ctx, sc, opts...)
 	sc.mu.Lock()
 	o.Alert = bytes.Clone(sc.w.Bytes())
 	o.Closed = sc.closed
